@@ -453,8 +453,16 @@ func monitor(sc Scenario, tr Trace) []Finding {
 	sclosed, sclosedErr, rclosed := false, false, false
 	nextPending, nextCanceled := false, false
 	ctxNextFailed := false
-	// stickiness: a report made while no send was in flight, and no send started since
+	// stickiness: a report made while no Send / TrySend was in flight, and no *Send* started since.
+	// "once no Send is in flight the end or error, once reported, keeps being reported": the period after a
+	// Send that is started later is left open (a Send started after the sender's Close on a buffered pipe has
+	// its data arm and its senderDone arm both ready and may still enqueue - DESIGN 8a). A TrySend is not a
+	// Send: it is over when it returns, the text names it separately ("TrySend never blocks"), and one that is
+	// started after the report (hence after the sender's Close has returned: Next reports only through the
+	// senderDone arm) does not re-open anything - whatever it returns, the end keeps being reported
+	// (fix8b, seeded/C10-m10; until then a `try` reset the report like a `send`).
 	quietReport := ""
+	triedAfterReport := map[int]bool{} // values offered by a TrySend called while quietReport was standing
 	for k, st := range tr {
 		a := st.Act
 		sendInFlightBefore := a.Op == "send" || a.Op == "try"
@@ -469,7 +477,11 @@ func monitor(sc Scenario, tr Trace) []Finding {
 			sentBy[a.V] = a.I
 			sentPos[a.V] = nsent[a.I]
 			nsent[a.I]++
-			quietReport = ""
+			if a.Op == "send" {
+				quietReport = ""
+			} else if quietReport != "" {
+				triedAfterReport[a.V] = true
+			}
 		case "next":
 			nextPending, nextCanceled = true, a.C
 		case "cancel":
@@ -542,7 +554,11 @@ func monitor(sc Scenario, tr Trace) []Finding {
 					add(k, "c08-pipe-ctx-send-delivered", "value %d was delivered although its Send failed with the context's error", v)
 				}
 				if quietReport != "" {
-					add(k, "pipe-end-not-sticky", "Next returned %d after %q had been reported with no Send in flight and none started since", v, quietReport)
+					how := ""
+					if triedAfterReport[v] {
+						how = fmt.Sprintf(" (%d was offered by a TrySend of sender %d that was called after the report)", v, i)
+					}
+					add(k, "pipe-end-not-sticky", "Next returned %d after %q had been reported with no Send in flight and none started since%s", v, quietReport, how)
 				}
 			case res == "end" || res == "err":
 				if sclosed && sclosedErr && res == "end" {
@@ -646,7 +662,7 @@ func genScenario(r *vlib.Rand, res *vlib.Result) Scenario {
 	val := func(i int) int { nv[i]++; return (i+1)*100 + nv[i] }
 	send := func(i int, c bool) Action { return Action{Op: "send", I: i, V: val(i), C: c} }
 	try := func(i int, c bool) Action { return Action{Op: "try", I: i, V: val(i), C: c} }
-	mode := r.Pick(30, 20, 12, 12, 10, 8, 8)
+	mode := r.Pick(30, 20, 12, 12, 10, 8, 8, 8)
 	res.Count(fmt.Sprintf("mode-%d", mode))
 	switch mode {
 	case 0: // random mix
@@ -763,6 +779,34 @@ func genScenario(r *vlib.Rand, res *vlib.Result) Scenario {
 				sc.Acts = append(sc.Acts, sclose(r, r.Bool()))
 			}
 		}
+	case 7: // after the end: some values, Close(nil | err), read until the end was reported, then TrySend (room
+		// in the buffer or not, live or expired context) and Next again, several times
+		sc.B = bs[r.Intn(len(bs))]
+		k := 0
+		if sc.B > 0 {
+			k = r.Intn(sc.B + 1)
+		}
+		for j := 0; j < k; j++ {
+			if r.Bool() {
+				sc.Acts = append(sc.Acts, try(r.Intn(sc.N), false))
+			} else {
+				sc.Acts = append(sc.Acts, send(r.Intn(sc.N), false))
+			}
+		}
+		sc.Acts = append(sc.Acts, sclose(r, r.Chance(1, 3)))
+		for j := 0; j < k+1; j++ {
+			sc.Acts = append(sc.Acts, Action{Op: "next"})
+		}
+		for j := r.Range(1, 3); j > 0; j-- {
+			sc.Acts = append(sc.Acts, try(r.Intn(sc.N), r.Chance(1, 8)))
+			if r.Chance(1, 4) {
+				sc.Acts = append(sc.Acts, try(r.Intn(sc.N), false))
+			}
+			sc.Acts = append(sc.Acts, Action{Op: "next", C: r.Chance(1, 10)})
+			if r.Chance(1, 3) {
+				sc.Acts = append(sc.Acts, Action{Op: "next"})
+			}
+		}
 	case 6: // receiver walks away while senders are blocked
 		for j := 0; j < sc.B+sc.N; j++ {
 			sc.Acts = append(sc.Acts, send(j%sc.N, false))
@@ -783,6 +827,35 @@ func genScenario(r *vlib.Rand, res *vlib.Result) Scenario {
 		}
 	}
 	return sc
+}
+
+// directedTryAfterEnd: `send x k; sclose; next x (k+1)` - the last Next reports the end (or the close
+// error) with nothing in flight - then TrySend (once or twice, by the same or by another sender) and two
+// more Next calls.
+func directedTryAfterEnd() []Scenario {
+	var out []Scenario
+	for _, b := range []int{0, 1, 2, 8} {
+		for _, withErr := range []bool{false, true} {
+			for k := 0; k <= 2 && k <= b; k++ {
+				for tries := 1; tries <= 2; tries++ {
+					sc := Scenario{N: 2, B: b}
+					for j := 0; j < k; j++ {
+						sc.Acts = append(sc.Acts, Action{Op: "send", I: 0, V: 101 + j})
+					}
+					sc.Acts = append(sc.Acts, Action{Op: "sclose", C: withErr})
+					for j := 0; j < k+1; j++ {
+						sc.Acts = append(sc.Acts, Action{Op: "next"})
+					}
+					for j := 0; j < tries; j++ {
+						sc.Acts = append(sc.Acts, Action{Op: "try", I: j, V: 901 + j})
+					}
+					sc.Acts = append(sc.Acts, Action{Op: "next"}, Action{Op: "next"})
+					out = append(out, sc)
+				}
+			}
+		}
+	}
+	return out
 }
 
 func nontrivial(tr Trace) bool {
@@ -1066,8 +1139,8 @@ func (c *checker) exhaustive(n, b, maxLen int, deadline time.Time) bool {
 
 func TestVerif(t *testing.T) {
 	env := vlib.GetEnv()
-	res := vlib.NewResult("C10", "scenario scripts of environment actions (7 generator modes: random mix, fill-close-drain, rendez-vous, context expiry with retries, "+
-		"close races, calls after Close / pre-expired contexts, receiver walks away; 1-3 senders, buffer 0/1/2/5) plus the corpus, each repeated so that both outcomes "+
+	res := vlib.NewResult("C10", "scenario scripts of environment actions (8 generator modes: random mix, fill-close-drain, rendez-vous, context expiry with retries, "+
+		"close races, calls after Close / pre-expired contexts, receiver walks away, TrySend after the end was reported; 1-3 senders, buffer 0/1/2/5) plus the corpus, each repeated so that both outcomes "+
 		"of select races show, followed by two real-threads stress phases in child processes (mixed TrySend / Send / drain rounds whose stuck call trips the runtime's deadlock detector; the sender's Close racing up to 3000 parked Sends and a reading receiver) and a real-threads outcome phase (8 small pre/par/post races per seed, e.g. TrySend racing Close(err) with a Next started before, whose observed result tuples must belong to the outcome set the Lean LTS computes for the scenario); a case is non-trivial if its trace has >= 4 executed actions, delivers >= 1 value and contains a Close or a context expiry; "+
 		"distinct = different script. thorough adds every script of <= 5 (1 sender, buffer 0 and 1) / <= 4 (2 senders, buffer 0 and 1) actions")
 	defer func() { res.Write(env.Out) }()
@@ -1152,6 +1225,12 @@ func TestVerif(t *testing.T) {
 		c.repeats = 60
 		c.check(sc)
 		c.repeats = save
+	}
+	// directed, every run: TrySend after the end / the close error was reported (buffer 0, 1, 2, 8 x
+	// Close(nil) / Close(err) x 0..2 values sent before the Close x one or two TrySends), then Next again
+	for _, sc := range directedTryAfterEnd() {
+		res.Count("directed-try-after-end")
+		c.check(sc)
 	}
 	r := vlib.NewRand(env.Seed)
 	budget := time.Duration(env.BudgetMs) * time.Millisecond
